@@ -46,6 +46,7 @@ struct Chk<'t> {
   bad: Vec<(String, String)>,
   spans: u64,
   placeholders: u64,
+  inner_ws: u64,
 }
 
 impl<'t> Chk<'t> {
@@ -85,7 +86,14 @@ impl<'t> Chk<'t> {
           }
           if let Some(t) = &nd.ident_text {
             if &self.text[s..e] != t {
-              self.fail("ident-text", nd, parent, format!("slice={:?} ident={:?}", &self.text[s..e], t));
+              // the parser accepts white space between '$' / '$$' and the name (implicit white space of
+              // the pest grammar, a C03 matter): the span is then still the exact source of the identifier
+              let squeezed: String = self.text[s..e].chars().filter(|c| !c.is_whitespace()).collect();
+              if &squeezed == t && self.text[s..e].starts_with('$') {
+                self.inner_ws += 1;
+              } else {
+                self.fail("ident-text", nd, parent, format!("slice={:?} ident={:?}", &self.text[s..e], t));
+              }
             }
           }
           own = Some((s, e));
@@ -125,7 +133,7 @@ impl<'t> Chk<'t> {
 
 fn check_accepted(ctx: &mut Ctx, text: &str, ast: &cddl::ast::CDDL, printer_rule_starts: Option<&[usize]>) {
   let tree = astwalk::doc(ast);
-  let mut c = Chk { text, bad: vec![], spans: 0, placeholders: 0 };
+  let mut c = Chk { text, bad: vec![], spans: 0, placeholders: 0, inner_ws: 0 };
   c.node(&tree, "-", None);
   if let Some(starts) = printer_rule_starts {
     if starts.len() == tree.children.len() {
@@ -140,6 +148,7 @@ fn check_accepted(ctx: &mut Ctx, text: &str, ast: &cddl::ast::CDDL, printer_rule
   }
   ctx.add("spans_checked", c.spans);
   ctx.add("placeholder_spans_skipped", c.placeholders);
+  ctx.add("socket_identifiers_with_inner_white_space_left_to_C03", c.inner_ws);
   if c.spans >= 10 {
     ctx.nontrivial(hash_str(text));
   }
